@@ -288,3 +288,45 @@ def _brief(obj):
 
 def _brief_r(r):
     return '%s %s/%s %s' % (r['st'], r['f'][0], r['f'][1], r['u'])
+
+
+def step_event(ad, it, eid):
+    """Execute one menu item on adapter `ad` and describe the outcome for UnitsTrace.tla."""
+    from quantity import Quantity, UndefinedResultError, UnitConversionError
+    kind, obj = ad.execute(it)
+    ev = dict(id=it['id'], eid=eid, kind=kind, res=dict(st='none', f=[0, 0], u='NONE'), syms=[])
+    if kind == 'op':
+        r = ev['res']
+        if isinstance(obj, UndefinedResultError):
+            r['st'] = 'undef'
+        elif isinstance(obj, UnitConversionError):
+            r['st'] = 'noconv'
+        elif isinstance(obj, BaseException):
+            r['st'] = 'raise:' + type(obj).__name__
+        else:
+            if isinstance(obj, tuple):
+                amnt, unit = obj
+            elif isinstance(obj, Quantity):
+                amnt, unit = obj.amount, obj.unit
+            else:
+                amnt, unit = obj, None
+            if isinstance(amnt, float):
+                r['st'] = 'float'
+            else:
+                f = Fraction(amnt)
+                r['f'] = [f.numerator, f.denominator] if abs(f.numerator) < 2 ** 31 and f.denominator < 2 ** 31 else [0, -2]
+                if unit is None:
+                    r['st'] = 'num'
+                else:
+                    r['st'] = 'ok'
+                    rev = {v: k2 for k2, v in ad.alias.items()}
+                    r['u'] = rev.get(unit.symbol, unit.symbol)
+    syms = []
+    for s_ in ad.universe + sorted(ad.alias):
+        try:
+            ad.Unit(ad.actual(s_))
+            syms.append(s_)
+        except ValueError:
+            pass
+    ev['syms'] = syms
+    return ev
